@@ -17,5 +17,14 @@ def extra(prog, tr):
 
 
 def run(chk):
-    eg.standard_run(chk, "C35", ["fanout", "collect", "wait", "routing"],
-                    {"pub", "step_start", "step_end", "drained"}, nontrivial=nontrivial, extra=extra)
+    from harness.programs import scenarios as sc
+    items = eg.collect(chk, ["fanout", "collect", "wait", "routing"])
+    # an InputRequiredEvent that a step of the workflow itself accepts
+    items += eg.collect(chk, ["ask"], paths_q=10, walks_q=4)
+    # serialise/resume points: what was in flight (queued or running) at the snapshot is started again in the resumed
+    # run, and its telemetry must be balanced there as well
+    items += eg.collect_resumed(chk, [("fanout(2,3)", sc.fanout(2, 3, None, 0, 0), []),
+                                      ("pipeline", sc.pipeline(), []),
+                                      ("overlap(1,2,2)", sc.overlap(1, 2, 2), [])], paths_q=4)
+    eg.standard_run(chk, "C35", None, {"pub", "step_start", "step_end", "drained"}, nontrivial=nontrivial, extra=extra,
+                    items=items)
